@@ -206,7 +206,10 @@ CStep(c, e, o, n) ==
     \*   "<ra>" { account "?*"; class <cfg.cls.acct> }   "<rz>" { class <cfg.cls.none> }
     \* configured (cfg.cls.on), an accepted client with a stamp is in class cfg.cls.acct, one without in cfg.cls.none
     clsOn == "cls" \in DOMAIN c.cfg /\ c.cfg.cls.on
-    clsOK(m) == ~clsOn \/ m.cls = (IF x4.acct # Nil THEN c.cfg.cls.acct ELSE c.cfg.cls.none)
+    \* optional first rule "<r1>" { xreply_ok <cfg.cls.xr.svc>; class <cfg.cls.xr.class> }: an OK from that service
+    clsXr == clsOn /\ "xr" \in DOMAIN c.cfg.cls /\ c.cfg.cls.xr.svc \in x4.okd
+    clsOK(m) == ~clsOn \/ m.cls = (IF clsXr THEN c.cfg.cls.xr.class
+                                    ELSE IF x4.acct # Nil THEN c.cfg.cls.acct ELSE c.cfg.cls.none)
     acceptOK == IF mustAccept
                 THEN /\ Len(accepts) = 1
                      /\ IF x4.acct # Nil
